@@ -23,7 +23,7 @@ package main
 //@ func (opts *serveOpts) run(cmd *cobra.Command, args []string) (err error)
 //@   props C19
 //@   requires opts != nil && opts.root != nil
-//@   assert [wiring]{C19} before call olareg.New#1: conf.Storage.ReadOnly == addr(opts.storeRO) && conf.API.PushEnabled == addr(opts.apiPush) &&
+//@   assert [wiring]{C19} before "olareg.New(conf)": conf.Storage.ReadOnly == addr(opts.storeRO) && conf.API.PushEnabled == addr(opts.apiPush) &&
 //@        conf.API.DeleteEnabled == addr(opts.apiDelete) && conf.API.Blob.DeleteEnabled == addr(opts.apiBlobDel) &&
 //@        conf.API.Referrer.Enabled == addr(opts.apiReferrer) && conf.Storage.GC.Untagged == addr(opts.gcUntagged) &&
 //@        conf.Storage.GC.ReferrersDangling == addr(opts.gcRefDangling) && conf.Storage.GC.ReferrersWithSubj == addr(opts.gcRefWithSubject) &&
